@@ -80,6 +80,25 @@ def impl_run(n, ops):
                 W[op["j"]] = H.copy(); out = "ok"
             elif o == "assignMol":
                 H.assign_mol(op["sp"], op["m"]); out = "ok"
+            elif o == "addFromStr":
+                e = H.add_rxn_from_str(op["reaction"], rule=op["rule"], parse_rule_from_suffix=op["suffix"])
+                out = {"id": e.id}
+            elif o == "parseRxns":
+                items = [(l, r) for l, r in op["items"]]
+                form = op.get("form", "tuples")
+                if form == "mapping" and len({l for l, _ in items}) == len(items):
+                    arg = dict(items)
+                elif form == "strings" and all(r is None for _, r in items):
+                    arg = [l for l, _ in items]
+                else:
+                    arg = items
+                H.parse_rxns(arg, default_rule=op["default_rule"], parse_rule_from_suffix=op["suffix"],
+                             prefer_suffix=op["prefer_suffix"])
+                out = "ok"
+            elif o == "parseRxnsRules":
+                H.parse_rxns(list(op["lines"]), rules=list(op["rules"]), default_rule=op["default_rule"],
+                             parse_rule_from_suffix=op["suffix"], prefer_suffix=op["prefer_suffix"])
+                out = "ok"
             elif o == "setMolMap":
                 H.set_mol_map(dict(op["mapping"]), strict=op["strict"], clear_existing=op["clear"]); out = "ok"
             else:
@@ -88,6 +107,8 @@ def impl_run(n, ops):
             out = "KeyError"
         except ValueError:
             out = "ValueError"
+        except IndexError:
+            out = "IndexError"
         steps.append({"out": out, "world": [impl_dump(h) for h in W]})
     return steps
 
@@ -157,6 +178,10 @@ def alphabet_small():
     ops.append({"op": "copy", "k": 0, "j": 1})
     ops.append({"op": "assignMol", "k": 0, "sp": "A", "m": "mA"})
     ops.append({"op": "setMolMap", "k": 0, "mapping": [["B", "mB"], ["C", "mC"]], "strict": False, "clear": True})
+    ops.append({"op": "addFromStr", "k": 0, "reaction": "2A + B >> C | rule=R1", "rule": None, "suffix": True})
+    ops.append({"op": "addFromStr", "k": 0, "reaction": "A>>B", "rule": "R1", "suffix": False})
+    ops.append({"op": "parseRxns", "k": 0, "items": [["A>>B", None], ["B+C>>A | rule=R1", None]], "default_rule": "r",
+                "suffix": True, "prefer_suffix": False, "form": "strings"})
     return ops
 
 
@@ -183,13 +208,51 @@ def random_ops(rnd, length, nslots=3):
         elif c < 0.90:
             j = rnd.choice([x for x in range(nslots) if x != k])
             ops.append({"op": "copy", "k": k, "j": j})
-        elif c < 0.95:
+        elif c < 0.93:
             sp = rnd.choice(SP)
             ops.append({"op": "assignMol", "k": k, "sp": sp, "m": "m" + sp})
+        elif c < 0.97:
+            kind = rnd.random()
+            if kind < 0.45:
+                ops.append({"op": "addFromStr", "k": k, "reaction": random_line(rnd, SP), "rule": rnd.choice([None, None, "R1", ""]),
+                            "suffix": rnd.random() < 0.7})
+            elif kind < 0.85:
+                items = [[random_line(rnd, SP), rnd.choice([None, None, "R2", "r"])] for _ in range(rnd.randint(0, 4))]
+                ops.append({"op": "parseRxns", "k": k, "items": items, "default_rule": rnd.choice(["r", "D"]),
+                            "suffix": rnd.random() < 0.7, "prefer_suffix": rnd.random() < 0.4,
+                            "form": rnd.choice(["tuples", "mapping", "strings"])})
+            else:
+                n = rnd.randint(0, 3)
+                lines = [random_line(rnd, SP) for _ in range(n)]
+                rules = [rnd.choice([None, "R1", "R2"]) for _ in range(n if rnd.random() < 0.8 else n + 1)]
+                ops.append({"op": "parseRxnsRules", "k": k, "lines": lines, "rules": rules, "default_rule": rnd.choice(["r", "D"]),
+                            "suffix": rnd.random() < 0.7, "prefer_suffix": rnd.random() < 0.4})
         else:
             mp = [[s, "M" + s] for s in SP if rnd.random() < 0.4]
             ops.append({"op": "setMolMap", "k": k, "mapping": mp, "strict": rnd.random() < 0.5, "clear": rnd.random() < 0.5})
     return ops
+
+
+def random_line(rnd, SP):
+    """A reaction string: mostly well formed (the spellings RXNSide.from_str documents), sometimes malformed."""
+    def term():
+        sp = rnd.choice(SP)
+        c = rnd.choice([1, 1, 1, 2, 3, 10])
+        return rnd.choice([sp if c == 1 else f"{c}{sp}", f"{c} {sp}", f"{c}*{sp}", sp])
+    def side():
+        n = rnd.choice([0, 1, 1, 2, 2, 3])
+        if n == 0:
+            return rnd.choice(["", "∅", " "])
+        return rnd.choice([" + ", "+", " +"]).join(term() for _ in range(n))
+    r = rnd.random()
+    if r < 0.06:
+        return side()                      # missing '>>'  -> ValueError
+    if r < 0.09:
+        return "*>>" + side()              # empty token list -> IndexError in from_str
+    line = side() + rnd.choice([">>", " >> "]) + side()
+    if rnd.random() < 0.35:
+        line += rnd.choice([" | rule=R1", "| rule=R2", " | rule = R3", " | note=x"])
+    return line
 
 
 def load_regress():
@@ -204,7 +267,7 @@ def load_regress():
 
 def nontrivial(ops, steps):
     # at least two successful edits and at least one stored reaction at some point
-    oks = sum(1 for s in steps if s["out"] not in ("KeyError", "ValueError"))
+    oks = sum(1 for s in steps if s["out"] not in ("KeyError", "ValueError", "IndexError"))
     return oks >= 2 and any(st["edges"] for s in steps for st in s["world"])
 
 
@@ -242,11 +305,11 @@ def run(ctx):
         "Lean 4.33 kernel; axioms of the property theorems as listed in obligation_list",
         "hand-written model SynKitModel/Store.lean tied to /repo by this correspondence run (not by translation)",
         "Driver/Store.lean JSON codec and harness/props/c15.py adapter + canonicalisation (sorting of sets/dicts)",
-        "modelled: add_rxn (mapping inputs), remove_rxn, remove_species, merge, copy, assign_mol, set_mol_map, incidence_matrix; "
-        "not modelled: parse_rxns/add_rxn_from_str (string parsing is C16), paths/neighbors",
+        "modelled: add_rxn (mapping inputs), add_rxn_from_str, parse_rxns (all input forms), remove_rxn, remove_species, merge, copy, "
+        "assign_mol, set_mol_map, incidence_matrix; not modelled: paths/neighbors",
     ]
     ctx.assumptions = ["species labels, rules and ids are plain strings; side inputs are mappings (dict) as in add_rxn's documented use"]
-    ctx.gen_rule = ("regression corpus first; then ALL op sequences of a 34-op alphabet over 3 species / 2 rules / 2 stores "
+    ctx.gen_rule = ("regression corpus first; then ALL op sequences of a 37-op alphabet over 3 species / 2 rules / 2 stores "
                     "(incl. explicit ids that look generated, merge both ways, copy) to depth 2 (quick) or 3 (thorough), compared on "
                     "outcome of every op and on the final state; then random histories (<=60 ops, 6 species, 3 stores, coefficients "
                     "incl. 0, negative and multi-digit) compared after every op.")
